@@ -75,3 +75,14 @@ Proof. reflexivity. Qed.
 Lemma body_checkRegionRecover_ok : body_checkRegionRecover =
   ["return region.GetReplicationStatus().GetStateId() == m.drAutoSync.StateID && region.GetReplicationStatus().GetState() == pb.RegionReplicationState_INTEGRITY_OVER_LABEL"].
 Proof. reflexivity. Qed.
+
+(* core.Storage.LoadReplicationStatus: the read's error is returned BEFORE the empty value is taken for "nothing persisted"; loadDRAutoSync
+   (skel_loadDRAutoSync_ok) initialises the state by a switch to sync exactly when it is told so.  With the two tests swapped a failed read
+   during a leader change would overwrite a persisted async / sync_recover state by a fresh `sync` (model: restart, props:
+   C19_failed_status_load_keeps_everything, C19_new_manager_initialises_only_when_nothing_stored). *)
+Lemma skel_LoadReplicationStatus_ok : skel_LoadReplicationStatus =
+  [Call "Load"; IfE "err != nil" [Ret] []; IfE "v == """"" [Ret] []; Call "Unmarshal"; IfE "err != nil" [Ret] []; Ret].
+Proof. reflexivity. Qed.
+Lemma guards_LoadReplicationStatus_ok : guards_LoadReplicationStatus =
+  [("err != nil", "return false, err"); ("v == """"", "return false, nil"); ("err != nil", "return false, errs.ErrJSONUnmarshal.Wrap(err).GenWithStackByArgs()")].
+Proof. reflexivity. Qed.
